@@ -749,7 +749,7 @@ pub fn generate(run_seed: u64, mode: &'static str, recvs: &'static std::collecti
 // ------------------------------------------------------------------------------------------------
 // element-level workloads
 
-pub const ELEM_RECEIVERS: [&str; 16] = ["FR4", "DI7", "FR1", "FR2", "FR3", "VR1", "VR2", "TR1", "DI1", "DI2", "DI3", "DI4", "DI5", "DI6", "AT1", "AT2"];
+pub const ELEM_RECEIVERS: [&str; 20] = ["FR5", "VR3", "TR2", "DI8", "FR4", "DI7", "FR1", "FR2", "FR3", "VR1", "VR2", "TR1", "DI1", "DI2", "DI3", "DI4", "DI5", "DI6", "AT1", "AT2"];
 
 const FOREIGN: [&str; 8] = ["doc = \"hi\"", "cfg(test)", "keep", "keep(1 2)", "derive(Debug)", "other(a = 1)", "allow(dead_code)", "zz::yy(=)"];
 
@@ -820,7 +820,9 @@ impl<'r> Gen<'r> {
         if let Some(DataDesc::With(s)) = d.data {
             self.sites.push((s, "data_with", true));
         }
-        let fake = recv("elem", Shape::Unit);
+        let mut fake = recv("elem", Shape::Unit);
+        fake.container_default = d.container_default.clone();
+        fake.container_post = d.container_post.clone();
         let items = self.struct_items(&fake, &d.fields, d.allow_unknown, depth);
         self.attrs_for(&d.attr_names, items)
     }
